@@ -2,6 +2,7 @@ package main
 
 import (
 	"fmt"
+	"go/token"
 	"go/types"
 	"sort"
 	"strings"
@@ -363,6 +364,48 @@ func runC14(c *Ctx, r *Run) {
 				ok = true
 			}
 		})
+		if !ok {
+			// the combination moved into a helper: g(dst, src) storing dst[i] ^ src[i] into dst, called with the chain key and the other contribution
+			pur := newPurity(c)
+			allInstrs(fn, func(in ssa.Instruction) {
+				call, isCall := in.(*ssa.Call)
+				if !isCall {
+					return
+				}
+				g := call.Call.StaticCallee()
+				if g == nil || g.Pkg == nil || !c.InModule(g.Pkg.Pkg) || len(g.Blocks) == 0 {
+					return
+				}
+				dst, src := -1, -1
+				for i, a := range call.Call.Args {
+					fs := paramFields(fn, a)
+					if containsField(fs, "recv.chainKey") {
+						dst = i
+					} else if containsField(fs, spec.peer) || containsField(fs, "recv.ourChainKey") {
+						src = i
+					}
+				}
+				if dst < 0 || src < 0 {
+					return
+				}
+				allInstrs(g, func(gin ssa.Instruction) {
+					st, isSt := gin.(*ssa.Store)
+					if !isSt {
+						return
+					}
+					bo, isBo := st.Val.(*ssa.BinOp)
+					if !isBo || bo.Op != token.XOR {
+						return
+					}
+					ka, ia := pur.root(g, st.Addr, 0)
+					k1, i1 := pur.root(g, bo.X, 0)
+					k2, i2 := pur.root(g, bo.Y, 0)
+					if ka == rootParam && ia == dst && k1 == rootParam && k2 == rootParam && ((i1 == dst && i2 == src) || (i1 == src && i2 == dst)) {
+						ok = true
+					}
+				})
+			})
+		}
 		r.Check("DEP-7", "protocols/doerner/keygen.(*"+spec.typ+").StoreMessage|chainKey <- own+peer", c.Pos(fn.Pos()), ok, "the Doerner chain key combines this party's and the peer's contribution", "chainKey is not computed from both contributions")
 	}
 
@@ -641,6 +684,90 @@ func runC14(c *Ctx, r *Run) {
 			"the chain-key contribution sampled in this round is not part of any commitment: it is not bound before the reveal")
 	}
 	r.Require("CK-BIND", 6)
+	// ---- CK-COMB: both Doerner parties combine the two chain-key contributions on every accepting path (fresh key
+	// generation and refresh alike): a side that skips the combination on some path ends with another chain key than its peer
+	r.Rule("CK-COMB", "the XOR that combines the two chain-key contributions lies on every accepting path of the method that performs it (both Doerner sides)")
+	if p := c.PkgRel("protocols/doerner/keygen"); p != nil {
+		for _, fn := range funcsOfPkg(c, c.SSA[p.Types]) {
+			var xorBlk *ssa.BasicBlock
+			allInstrs(fn, func(in ssa.Instruction) {
+				st, ok := in.(*ssa.Store)
+				if !ok {
+					return
+				}
+				bo, ok := st.Val.(*ssa.BinOp)
+				if !ok || bo.Op != token.XOR {
+					return
+				}
+				ia, ok := st.Addr.(*ssa.IndexAddr)
+				if !ok || !containsField(paramFields(fn, ia.X), "recv.chainKey") {
+					return
+				}
+				xorBlk = st.Block()
+			})
+			viaHelper := false
+			if xorBlk == nil {
+				// the combination moved into a helper: a call handing recv.chainKey to a module function that XORs into its parameter
+				allInstrs(fn, func(in ssa.Instruction) {
+					call, ok := in.(*ssa.Call)
+					if !ok {
+						return
+					}
+					g := call.Call.StaticCallee()
+					if g == nil || g.Pkg == nil || !c.InModule(g.Pkg.Pkg) || len(g.Blocks) == 0 {
+						return
+					}
+					takes := false
+					for _, a := range call.Call.Args {
+						if containsField(paramFields(fn, a), "recv.chainKey") {
+							takes = true
+						}
+					}
+					if !takes {
+						return
+					}
+					allInstrs(g, func(gin ssa.Instruction) {
+						st, ok := gin.(*ssa.Store)
+						if !ok {
+							return
+						}
+						if bo, ok := st.Val.(*ssa.BinOp); ok && bo.Op == token.XOR {
+							if _, isIA := st.Addr.(*ssa.IndexAddr); isIA {
+								xorBlk, viaHelper = call.Block(), true
+							}
+						}
+					})
+				})
+			}
+			if xorBlk == nil {
+				continue
+			}
+			r.Analysed(c.FuncName(fn))
+			// the loop header: the topmost dominator of the XOR that still lies on the loop's cycle
+			hdr := xorBlk
+			for !viaHelper && hdr.Idom() != nil && blockInLoop(hdr.Idom()) && blockReaches(xorBlk, hdr.Idom()) {
+				hdr = hdr.Idom()
+			}
+			bad := ""
+			for _, ret := range returnsOf(fn) {
+				if len(ret.Results) == 0 || !isNilConst(ret.Results[len(ret.Results)-1]) {
+					continue
+				}
+				if ret.Block() == hdr || hdr.Dominates(ret.Block()) {
+					continue
+				}
+				if ret.Block() == fn.Blocks[0] || reachesAvoiding(fn.Blocks[0], ret.Block(), hdr) {
+					bad = c.Pos(ret.Pos())
+				}
+			}
+			r.Check("CK-COMB", c.FuncName(fn)+"|xor-on-every-accepting-path", c.Pos(fn.Pos()), bad == "",
+				"every accepting return passes the loop that XORs the peer's contribution into the chain key",
+				"the accepting return at "+bad+" is reachable without passing the XOR of the two chain-key contributions (an early return, e.g. on refresh): this party keeps only one contribution while its peer combines both, so the two configs hold different chain keys and derive different child keys")
+		}
+	} else {
+		r.Unresolved("CK-COMB", "protocols/doerner/keygen")
+	}
+	r.Require("CK-COMB", 2)
 	r.Require("CODEC-1", 10)
 	r.Require("DEP-7", 8)
 	r.Require("DEP-8", 12)
